@@ -61,7 +61,7 @@ static const char *const op_names[K_N] = { "init", "open", "filter", "format", "
 #define MARK "@@P"
 
 // avoid tokens (SIMK_AVOID, read by gen() only; the run reads the mask from the plan so that replays are self-contained)
-enum { AV_A = 1, AV_B = 2, AV_C = 4, AV_D = 8, AV_E = 16, AV_F = 32 };
+enum { AV_A = 1, AV_B = 2, AV_C = 4, AV_D = 8, AV_E = 16, AV_F = 32, AV_G = 64 };
 static const struct { const char *tok; int bit; } avoid_tokens[] = {
 	{ "threaded-before-start", AV_A },   // threaded flag set but no logging thread: NULL lock dereference
 	{ "reinit-after-thread", AV_B },     // qb_log_init after a cycle that started the thread: stale thread state
@@ -69,6 +69,7 @@ static const struct { const char *tok; int bit; } avoid_tokens[] = {
 	{ "concurrent-producers", AV_D },    // two threads inside the log call: the second message is discarded silently
 	{ "close-while-busy", AV_E },        // qb_log_custom_close does not wait for the worker
 	{ "fini-with-backlog", AV_F },       // the worker can exit on the stop request with records still queued
+	{ "start-after-failed-start", AV_G },// a failed qb_log_thread_start leaves the stop flag set for the next worker
 };
 
 // message states per target
@@ -78,7 +79,7 @@ static int p_fini_queue, p_stop_window, p_backlog, p_ctl_in_cb, p_thr_nothread_c
 	p_close_busy, p_burst, p_burst_overlap, p_orphaned, p_late_route, p_stale_slot, p_sync, p_async, p_lock_wait_app,
 	p_skipped_avoid, p_skipped_illegal, p_ctl_worker_locked, p_disable_with_queue, p_unthread_with_queue, p_stale_flag,
 	p_start_twice, p_start_late, p_prio_queued, p_prio_live, p_fini_nothread, p_trunc, p_may_drop, p_handoff_in_log,
-	p_worker_idle_at_fini, p_start_failed, p_eintr_dummy, s_msgs, s_ops, s_maxq, s_lost, s_statics_found;
+	p_worker_idle_at_fini, p_start_failed, p_start_after_failed, p_eintr_dummy, s_msgs, s_ops, s_maxq, s_lost, s_statics_found;
 
 static uintptr_t A_active, A_should_exit, A_lockptr, A_list, A_mem, A_dropped, A_sem;
 
@@ -166,6 +167,7 @@ static void init(const char *)
 	p_handoff_in_log = counter_id("probe", "handoff_inside_log_call");
 	p_worker_idle_at_fini = counter_id("probe", "fini_with_worker_idle");
 	p_start_failed = counter_id("probe", "thread_start_failed_on_bad_priority");
+	p_start_after_failed = counter_id("probe", "thread_started_after_an_earlier_failed_start");
 	p_eintr_dummy = counter_id("fault", "eintr");
 	s_msgs = counter_id("stat", "messages_logged");
 	s_ops = counter_id("stat", "ops_executed");
@@ -180,15 +182,19 @@ struct TAbs { bool open, enabled, thr; int pos; };
 struct Abs {
 	bool inited = false;
 	bool thr_live = false;       // a logging thread was started in this init cycle
-	bool lib_active = false;     // log_thread.c's wthread_active (never cleared by qb_log_thread_stop)
+	bool thr_ever = false;       // an earlier init cycle of this process started (and stopped) a logging thread
 	int cycle = 0;
+	bool prio_q = false, prio_q_valid = true;   // a priority is queued for the next qb_log_thread_start, and whether the kernel accepts it
+	bool start_failed = false;                   // a qb_log_thread_start has failed (bad priority) in this process
 	TAbs T[NT] = {};
 	bool slot_used[NSLOT] = {};
 	bool slot_thr[NSLOT] = {};   // conf[pos].threaded as the library sees it (never cleared by init / close)
-	int lock_state() const { return !lib_active ? 0 : thr_live ? 1 : 2; }   // 0 NULL, 1 live, 2 dangling
+	// the lock log_thread.c uses: 1 live; 0 never created; 2 destroyed by an earlier qb_log_fini (the library keeps the dangling
+	// pointer and wthread_active, see finding 'reinit-after-thread'; as intended it would be the same as 0)
+	int lock_state() const { return thr_live ? 1 : thr_ever ? 2 : 0; }
 	int alloc_slot() const { for (int i = 4; i < NSLOT; i++) if (!slot_used[i]) return i; return -1; }
 	void do_init() { inited = true; thr_live = false; cycle++; for (int t = 0; t < NT; t++) T[t] = TAbs(); memset(slot_used, 0, sizeof slot_used); }
-	void do_fini() { inited = false; thr_live = false; for (int t = 0; t < NT; t++) T[t].open = T[t].enabled = false; }
+	void do_fini() { inited = false; if (thr_live) thr_ever = true; thr_live = false; for (int t = 0; t < NT; t++) T[t].open = T[t].enabled = false; }
 };
 
 enum { ADM_RUN = 0, ADM_ILLEGAL, ADM_AVOID };
@@ -202,7 +208,7 @@ static int admit(const Abs &a, const Op &op, int av, bool log_hits_thr)
 	switch (op.kind) {
 	case K_INIT:
 		if (a.inited) return ADM_ILLEGAL;
-		if ((av & AV_B) && a.lib_active) return ADM_AVOID;
+		if ((av & AV_B) && a.thr_ever) return ADM_AVOID;
 		return ADM_RUN;
 	case K_OPEN:
 		if (!a.inited || !tv || a.T[t].open || a.alloc_slot() < 0) return ADM_ILLEGAL;
@@ -212,20 +218,21 @@ static int admit(const Abs &a, const Op &op, int av, bool log_hits_thr)
 		return ADM_RUN;
 	case K_ENABLE: case K_CTL:
 		if (!a.inited || !tv || !a.T[t].open) return ADM_ILLEGAL;
-		if (a.slot_thr[a.T[t].pos]) {
-			if ((av & AV_A) && a.lock_state() == 0) return ADM_AVOID;
+		if (a.slot_thr[a.T[t].pos] && a.lock_state() != 1) {
+			if (av & AV_A) return ADM_AVOID;
 			if ((av & AV_B) && a.lock_state() == 2) return ADM_AVOID;
 		}
 		return ADM_RUN;
 	case K_THREAD_START:
 		if (!a.inited) return ADM_ILLEGAL;
+		if ((av & AV_G) && a.start_failed && !a.thr_live) return ADM_AVOID;
 		return ADM_RUN;
 	case K_PRIO_SET: case K_SLEEP:
 		return ADM_RUN;
 	case K_LOG: case K_BURST:
 		if (!a.inited) return ADM_ILLEGAL;
-		if (log_hits_thr) {
-			if ((av & AV_A) && a.lock_state() == 0) return ADM_AVOID;
+		if (log_hits_thr && a.lock_state() != 1) {
+			if (av & AV_A) return ADM_AVOID;
 			if ((av & AV_B) && a.lock_state() == 2) return ADM_AVOID;
 		}
 		return ADM_RUN;
@@ -280,7 +287,6 @@ struct St {
 	int64_t qdepth = 0, qmax = 0;
 	// worker phase tracking (probes): 0 idle / waiting, 1 got the semaphore, 2 holds the lock
 	int wphase = 0;
-	bool prio_queued = false, prio_queued_valid = true;
 	int stop_guard = 0;
 	uintptr_t anchor = 0;
 };
@@ -536,7 +542,7 @@ static void check_cycle_end(const char *when)
 				VFAIL("message-skipped-target", "qb_log_thread_log_write", "%s: message #%u of producer %d was written by the logging thread but not to target %d, which was enabled, threaded and selected all along",
 				      when, m.serial, m.p, tt);
 			if (!m.may_drop)
-				VFAIL("message-lost", (m.overlapped && !G.serial_log) ? "concurrent-log-call" : "qb_log_fini",
+				VFAIL("message-lost", (m.overlapped && !G.serial_log) ? "concurrent-log-call" : G.a.start_failed ? "qb_log_thread_start" : "qb_log_fini",
 				      "%s: message #%u of producer %d (%u bytes) was never written to target %d; the backlog was at most %lld bytes when it was logged%s",
 				      when, m.serial, m.p, m.len, tt, (long long)0 + (long long)m.size_hi, m.overlapped ? " (another thread was inside the log call)" : "");
 			missing_must++;
@@ -589,7 +595,7 @@ static void log_one(int p, uint32_t size, int csidx, bool burst)
 		if (G.a.slot_thr[T.pos]) will_post = true;
 	}
 	if (hits_lib_thr && G.a.lock_state() != 1) {
-		if ((G.a.lock_state() == 0 && (G.av & AV_A)) || (G.a.lock_state() == 2 && (G.av & AV_B))) {
+		if ((G.av & AV_A) || (G.a.lock_state() == 2 && (G.av & AV_B))) {
 			if (burst && G.serial_log) G.log_owner = -1;
 			count(p_skipped_avoid);
 			return;
@@ -687,7 +693,7 @@ static void do_fini()
 	for (int t = 0; t < NT; t++) q += pending_must(t);
 	if (q > 0) count(p_fini_queue);
 	else if (G.a.thr_live) count(p_worker_idle_at_fini);
-	if (!G.a.lib_active) count(p_fini_nothread);
+	if (!G.a.thr_live) count(p_fini_nothread);
 	G.in_fini = true;
 	ev(220);
 	qb_log_fini();
@@ -824,13 +830,13 @@ static void app_op(const Op &op)
 		int32_t rc = qb_log_thread_start();
 		// (the simulated pthread_setschedparam accepts everything today; should it start refusing what the kernel refuses,
 		// a queued out-of-range priority makes the start fail, which the library reports and cleans up after)
-		bool may_fail = !G.a.lib_active && G.prio_queued && !G.prio_queued_valid;
+		bool may_fail = !G.a.thr_live && G.a.prio_q && !G.a.prio_q_valid;
 		if (rc != 0 && !(may_fail && rc == -EINVAL)) VFAIL("bad-return", "qb_log_thread_start", "qb_log_thread_start returned %d", rc);
 		if (rc == 0) {
-			if (!G.a.lib_active) { G.a.lib_active = true; G.a.thr_live = true; G.prio_queued = false; }
-			// (with lib_active already set from an earlier cycle the call is a no-op inside the library: no thread in this cycle)
+			if (!G.a.thr_live) { G.a.thr_live = true; G.a.prio_q = false; if (G.a.start_failed) count(p_start_after_failed); }
 		} else {
 			count(p_start_failed);
+			G.a.start_failed = true;
 		}
 		break; }
 	case K_PRIO_SET: {
@@ -838,11 +844,11 @@ static void app_op(const Op &op)
 		int policy = pol[(op.a[0] < 0 ? 0 : op.a[0]) % 3];
 		int prio = (int)(op.a[1] < -1 ? -1 : op.a[1] > 99 ? 99 : op.a[1]);
 		bool valid = policy == SCHED_OTHER || (prio >= 1 && prio <= 99);
-		if (G.a.lib_active) count(p_prio_live); else count(p_prio_queued);
+		if (G.a.thr_live) count(p_prio_live); else count(p_prio_queued);
 		ev(208, policy, prio);
 		int32_t rc = qb_log_thread_priority_set(policy, prio);
-		if (!G.a.lib_active) { G.prio_queued = true; G.prio_queued_valid = valid; }
-		if (rc != 0 && !(rc == -EINVAL && !valid && G.a.lib_active))
+		if (!G.a.thr_live) { G.a.prio_q = true; G.a.prio_q_valid = valid; }
+		if (rc != 0 && !(rc == -EINVAL && !valid))
 			VFAIL("bad-return", "qb_log_thread_priority_set", "qb_log_thread_priority_set(%d, %d) returned %d", policy, prio, rc);
 		break; }
 	case K_LOG: {
@@ -991,7 +997,15 @@ struct GenCtx {
 			       if ((av & AV_C) || a1) a.slot_thr[s] = false; break; }
 		case K_THREADED: a.T[t].thr = a1 != 0; a.slot_thr[a.T[t].pos] = a1 != 0; break;
 		case K_ENABLE: a.T[t].enabled = a1 != 0; break;
-		case K_THREAD_START: if (!a.lib_active) { a.lib_active = true; a.thr_live = true; } break;
+		case K_THREAD_START:
+			if (!a.thr_live) {
+				if (a.prio_q && !a.prio_q_valid) a.start_failed = true;      // the start fails and cleans up
+				else { a.thr_live = true; a.prio_q = false; }
+			}
+			break;
+		case K_PRIO_SET:
+			if (!a.thr_live) { a.prio_q = true; a.prio_q_valid = (a0 % 3 == 0) || (a1 >= 1 && a1 <= 99); }
+			break;
 		case K_CLOSE: a.slot_used[a.T[t].pos] = false; a.T[t].open = a.T[t].enabled = a.T[t].thr = false; break;
 		case K_FINI: a.do_fini(); break;
 		}
